@@ -79,7 +79,10 @@ Qed.
 
 (* ---------------------------------------------------------------- sys_tags repeats no Tag *)
 Lemma lower_cp_not_py pv x : ~ In (lower (s_cp ++ x)) (py_range pv).
-Proof. intros H. apply py_range_py in H as [r E]. rewrite lower_app in E. discriminate E. Qed.
+Proof.
+  intros H. apply py_range_py in H as [r E]. unfold lower, NamesX.lower_full, s_cp in E. cbn [app NamesX.lower_go] in E.
+  change (NamesX.lower_at [] (112 :: x) 99) with [99] in E. discriminate E.
+Qed.
 Lemma pp3_not_py pv : ~ In (lower s_pp3) (py_range pv).
 Proof. intros H. apply py_range_py in H as [r E]. discriminate E. Qed.
 
